@@ -10,7 +10,7 @@ def run(tier, seed):
     res = C.Result("C02", tier, seed, level="proof")
     res.assumptions = ["single-threaded runs; the Spec (ordered map of maps) is extracted from coq/SpecDefs.v",
                        "30 KiB keys: the model has no length limit; one long-key script per thorough run"]
-    return seq.run_seq_property(res, "c02", CATS, 50, 500, gen_kwargs=GEN, extra_scripts=seq.gen_split_boundary_scripts)
+    return seq.run_seq_property(res, "c02", CATS, 50, 500, gen_kwargs=GEN, extra_scripts=seq.gen_split_boundary_scripts, post=lambda res: seq.longkey_phase(res, "c02"))
 
 
 def replay(path, tier, seed):
